@@ -498,6 +498,15 @@ class EdgeQLSourceGenerator(codegen.SourceGenerator):
         self.write(op)
         if op.isalnum():
             self.write(' (')
+        elif (
+            isinstance(node.operand, qlast.UnaryOp)
+            or (
+                isinstance(node.operand, qlast.Constant)
+                and node.operand.value[:1] in ('-', '+')
+            )
+        ):
+            # '+ +n' must not become the '++' operator, '- -1' not '--1'
+            self.write(' ')
         self.visit(node.operand)
         if op.isalnum():
             self.write(')')
